@@ -211,6 +211,9 @@ bool File::rename(const String& from, const String& to, bool failIfExists)
 #else
   if(failIfExists)
   {
+    struct stat fromStat;
+    if(lstat(from, &fromStat) != 0) // (the placeholder below must not be mistaken for the source when both names are equal)
+      return false;
     int fd = ::open(to, O_CREAT | O_EXCL | O_CLOEXEC, S_IRUSR | S_IWUSR | S_IRGRP | S_IROTH);
     if(fd == -1)
       return false;
